@@ -23,6 +23,7 @@ NONTERMINALS = {
     "prepare_column_type": "<type>", "prepare_column_auto_increment": "<type>", "prepare_column_type_check_auto_increment": "<type>",
     "prepare_constant": "<value>", "prepare_function_name": "<function>", "prepare_function_arguments": "<arguments>",
     "prepare_condition_where": "<expr>", "prepare_type_ref": "<type_ref>",
+    "prepare_bin_oper": "<binop>", "prepare_un_oper": "<unop>", "prepare_sub_query_oper": "<subop>", "prepare_keyword": "<keyword>",
     "prepare_with_query": "<query>", "prepare_insert_statement": "<query>", "prepare_update_statement": "<query>", "prepare_delete_statement": "<query>",
 }
 
@@ -154,7 +155,7 @@ class Builder:
             return None
         e = g1.get("e")
         neg = False
-        while isinstance(e, dict) and e.get("k") == "unary" and e.get("op") in ("Not", "!"):
+        while isinstance(e, dict) and e.get("k") == "unary" and e.get("op") in ("Not", "!", "not"):
             e = e["e"]
         e = H.peel_ref(e) if isinstance(e, dict) else e
         if not (isinstance(e, dict) and e.get("k") == "local"):
@@ -184,6 +185,14 @@ class Builder:
         if len(lst) <= 1 or sp not in lst:
             return 0
         return lst.index(sp) + 1
+
+    def array_len(self, info):
+        it_e = (info or {}).get("e") if isinstance(info, dict) else None
+        while isinstance(it_e, dict) and it_e.get("k") == "mcall" and it_e["name"] in ("iter", "into_iter", "enumerate") and not it_e["args"]:
+            it_e = H.peel_ref(it_e["recv"])
+        if isinstance(it_e, dict) and it_e.get("k") == "array":
+            return len(it_e.get("es") or [])
+        return 0
 
     def variant_of(self, node):
         """the enum variant a constant expression denotes: a unit variant path, `&Variant`, or a local known to hold one"""
@@ -538,6 +547,30 @@ class Builder:
             if (info.get("over") or "").endswith(".enumerate()") and isinstance(info.get("pat"), dict):
                 binds = [n["name"] for n in walk(info["pat"]) if n.get("k") == "bind"]
                 idx = binds[0] if len(binds) == 2 else None
+            fixed_n = None
+            it_e = info.get("e")
+            while isinstance(it_e, dict) and it_e.get("k") == "mcall" and it_e["name"] in ("iter", "into_iter", "enumerate") and not it_e["args"]:
+                it_e = H.peel_ref(it_e["recv"])
+            if isinstance(it_e, dict) and it_e.get("k") == "array":
+                fixed_n = len(it_e.get("es") or [])
+            if fixed_n:
+                # a loop over an array literal runs exactly that many times
+                old = self.bind.get(idx) if idx else None
+                cur = s
+                for i_ in range(fixed_n):
+                    nxt = e if i_ == fixed_n - 1 else a.state()
+                    if idx:
+                        self.bind[idx] = "#first" if i_ == 0 else "#rest"
+                    self.loop_ends.append(nxt)
+                    self.build(S[1], cur, nxt, fn_end, fname)
+                    self.loop_ends.pop()
+                    cur = nxt
+                if idx:
+                    if old is None:
+                        self.bind.pop(idx, None)
+                    else:
+                        self.bind[idx] = old
+                return
             if idx is not None:
                 # first iteration (index 0) then the others (index > 0)
                 m0, m1, m2 = a.state(), a.state(), a.state()
@@ -586,6 +619,18 @@ class Builder:
                     a.add_eps(Hs, nH)
                 Hs = nH
             a.add_eps(Hs, e)        # at least one element overall (an empty element list is a builder state R3 decides)
+        elif k == "sepby" and self.array_len(S[3] if len(S) > 3 else None):
+            # a separated list over an array literal has exactly that many elements
+            n_ = self.array_len(S[3])
+            cur = s
+            for i_ in range(n_):
+                if i_ > 0:
+                    m = a.state()
+                    self.build(S[2], cur, m, fn_end, fname)
+                    cur = m
+                nxt = e if i_ == n_ - 1 else a.state()
+                self.build(S[1], cur, nxt, fn_end, fname)
+                cur = nxt
         elif k == "sepby":
             # body (sep body)*
             m1, m2, m3 = a.state(), a.state(), a.state()
@@ -739,8 +784,9 @@ class Builder:
                 if e.get("k") == "match":
                     for a in e["arms"]:
                         leaves(a["body"])
-                elif e.get("k") == "if" and e.get("els") is not None:
-                    leaves(e["then"]); leaves(e["els"])
+                elif e.get("k") == "if" and e.get("else") is not None:
+                    leaves(e["then"])
+                    leaves(e["else"])
                 elif e.get("k") == "block" and e.get("expr") is not None and not e.get("stmts"):
                     leaves(e["expr"])
                 else:
